@@ -1,0 +1,42 @@
+//go:build verif
+
+package publicsuffix
+
+// C51, wildcard rule of the node walk in PublicSuffix ("*.parent" matches "label.parent" for
+// every label, whether or not the label also has a node of its own in the table).
+//
+// Ghost variables (a counter that is advanced by `new - ghost(g)` is an assignment):
+//   wn   number of iterations that started below a parent with a wildcard child rule
+//        (local `wildcard` set by the previous iteration from the parent's children entry);
+//   wpos 1+dot of the last such iteration: the offset in domain where the label matched by the
+//        wildcard rule begins;
+//   exc  number of exception-type children entries met (an exception rule ends the walk and
+//        cuts the matched label off again); epos = 1+len(s) at that point: the offset right
+//        after the label of the exception node and its dot;
+//   nn   number of normal-type children entries met (the found node ends a rule of its own);
+//        npos = 1+dot of the last of them: the offset where the label of that node begins.
+// The after-loop call strings.LastIndexByte(domain, '.') is told apart by its argument: inside the
+// loop an iteration with `wildcard` set works on a proper prefix of domain (checked invariant).
+//
+// Postcondition: if some iteration started below a wildcard parent and no exception rule fired,
+// the public suffix begins at or to the left of the label that the last such iteration looked at,
+// i.e. the wildcard match is never lost, on every way out of the loop (label not found, no
+// children, label found as a parent-only node, last label of the domain). Likewise the match of a
+// normal rule is never lost (the suffix begins at or to the left of the last normal node's label)
+// and an exception rule yields exactly the text after the exception node's label.
+//
+//@ extend PublicSuffix(domain) (r, icann)
+//@   ghost wn += 1 at call LastIndexByte when wildcard && len($s) < len(domain)
+//@   ghost wpos += 1 + $r0 - ghost(wpos) after call LastIndexByte when wildcard && len($s) < len(domain)
+//@   ghost exc += 1 after call (uint32String).get when ($r0>>28)&3 == nodeTypeException
+//@   ghost nn += 1 after call (uint32String).get when ($r0>>28)&3 == nodeTypeNormal
+//@   ghost npos += 1 + dot - ghost(npos) after call (uint32String).get when ($r0>>28)&3 == nodeTypeNormal
+//@   ghost epos += 1 + len(s) - ghost(epos) after call (uint32String).get when ($r0>>28)&3 == nodeTypeException
+//@   loop 1 invariant ghost(exc) == 0 && ghost(wn) >= 0 && ghost(nn) >= 0
+//@   loop 1 invariant ghost(nn) >= 1 ==> suffix <= ghost(npos)
+//@   loop 1 invariant len(s) == len(domain) ==> !wildcard && suffix == len(domain) && ghost(wn) == 0
+//@   loop 1 invariant len(s) <= suffix
+//@   loop 1 invariant ghost(wn) >= 1 ==> suffix <= ghost(wpos)
+//@   ensures ghost(wn) >= 1 && ghost(exc) == 0 ==> len(domain) - len(r) <= ghost(wpos)
+//@   ensures ghost(nn) >= 1 && ghost(exc) == 0 ==> len(domain) - len(r) <= ghost(npos)
+//@   ensures ghost(exc) >= 1 ==> len(domain) - len(r) == ghost(epos)
